@@ -28,7 +28,7 @@ template <class Ring, class E = long> void run_typed(Ctx& ctx) {
             [&](int) {},
             [&](int t, const Op& op) {
                 int h = ctx.begin_op(t, op); long res = 0;
-                if (t == 0) {   // producer
+                if (op.kind == O_PUSH || op.kind == O_PUSHN) {   // producer role (thread 0 in the two-thread programs; the only thread plays both roles under C20)
                     long n = op.kind == O_PUSHN ? op.a : 1; if (n >= cap) n = cap - 1; if (n < 1) n = 1;
                     long free_lower_bound = cap - (pushed_done - popped_done);     // at invocation; free space only grows during the call
                     bool ok;
@@ -71,7 +71,7 @@ template <class Ring> void run_void(Ctx& ctx) {
             [&](int) {},
             [&](int t, const Op& op) {
                 int h = ctx.begin_op(t, op); long res = 0;
-                if (t == 0) {
+                if (op.kind == O_PUSH) {
                     size_t s = (size_t)op.a; if ((long)real_size(s) >= cap) s = 8;
                     size_t used_upper = 0; for (auto& r : unpopped) used_upper += 2 * real_size(r.size);
                     void* buf = ring.back(s);
@@ -100,21 +100,33 @@ template <class Ring> void run_void(Ctx& ctx) {
         if (next_pop != next_seq) ctx.fail("element-lost", "%ld records were pushed but %ld could be popped", next_seq - 1, next_pop - 1);
     }
 }
-void gen_typed(Rng& r, Program& p, int, const std::string&) {
-    long cap = r.pick({2, 3, 4, 5, 8}); p.set("capacity", cap); p.threads.resize(2);
+void gen_typed(Rng& r, Program& p, int, const std::string& prop) {
+    long cap = r.pick({2, 3, 4, 5, 8}); p.set("capacity", cap);
+    if (prop == "C20") {   // one thread, producer and consumer calls mixed
+        p.threads.resize(1); int n = r.range(8, 30);
+        for (int k = 0; k < n; k++) { int x = r.below(100); if (x < 30) p.add(0, O_PUSH, 0, r.below(3)); else if (x < 50 && cap > 2) p.add(0, O_PUSHN, r.range(1, (int)cap - 1), r.below(2)); else if (x < 65 && cap > 2) p.add(0, O_POPN, r.range(1, (int)cap - 1), r.below(2)); else if (x < 80) p.add(0, O_FRONT); else p.add(0, O_POP, 0, r.below(2)); }
+        return;
+    }
+    p.threads.resize(2);
     int np = r.range(3, 9), nc = r.range(3, 9);
     for (int k = 0; k < np; k++) { if (r.chance(300) && cap > 2) p.add(0, O_PUSHN, r.range(1, (int)cap - 1), r.below(2)); else p.add(0, O_PUSH, 0, r.below(3)); }
     for (int k = 0; k < nc; k++) { int x = r.below(100); if (x < 25 && cap > 2) p.add(1, O_POPN, r.range(1, (int)cap - 1), r.below(2)); else if (x < 50) p.add(1, O_FRONT); else p.add(1, O_POP, 0, r.below(2)); }
 }
-void gen_void(Rng& r, Program& p, int, const std::string&) {
-    long cap = r.pick({64, 96, 128}); p.set("capacity", cap); p.threads.resize(2);
+void gen_void(Rng& r, Program& p, int, const std::string& prop) {
+    long cap = r.pick({64, 96, 128}); p.set("capacity", cap);
+    if (prop == "C20") {
+        p.threads.resize(1); int n = r.range(8, 30);
+        for (int k = 0; k < n; k++) { if (r.chance(550)) { long s = r.chance(300) ? r.range((int)cap / 2 - 8, (int)cap - 17) : r.range(1, (int)cap / 3); p.add(0, O_PUSH, s); } else p.add(0, O_FRONT); }
+        return;
+    }
+    p.threads.resize(2);
     int np = r.range(3, 9), nc = r.range(3, 9);
     for (int k = 0; k < np; k++) { long s = r.chance(300) ? r.range((int)cap / 2 - 8, (int)cap - 17) : r.range(1, (int)cap / 3); p.add(0, O_PUSH, s); }
     for (int k = 0; k < nc; k++) p.add(1, O_FRONT);
 }
 void tune(dsim::Params& p, Rng& r, const Program&, const std::string&) { if (r.chance(400)) { p.tso_permille = r.pick({300, 700, 900}); p.tso_residency = r.pick({64, 512}); } p.soft_cap = 50000; p.hard_cap = 100000; }
 #define COMP(f) "real: " f " cds/opt/buffer.h; simulated: scheduler (points on both sides of the back_/front_ operations, so the consumer can run between a publish and the data copy), x86-TSO store buffer, stalls; oracle: online exact SPSC FIFO (k-th pop delivers k-th push), layout-independent failure rules"
-#define RB_SUBJECT(var, NAME, RUN, GEN, F) static const Subject var = {NAME, "C12", GEN, RUN, nullptr, tune, opnames, COMP(F)}; static Registrar var##_reg(&var);
+#define RB_SUBJECT(var, NAME, RUN, GEN, F) static const Subject var = {NAME, "C12,C20", GEN, RUN, nullptr, tune, opnames, COMP(F)}; static Registrar var##_reg(&var);
 typedef cds::container::WeakRingBuffer<long> R1; typedef cds::container::WeakRingBuffer<long, dyn_any> R2;
 typedef cds::container::WeakRingBuffer<void> V1; typedef cds::container::WeakRingBuffer<void, dyn_any> V2;
 RB_SUBJECT(r1, "misc.WeakRingBuffer_pow2", run_typed<R1>, gen_typed, "cds/container/weak_ringbuffer.h WeakRingBuffer<T> (power-of-two buffer)")
